@@ -444,9 +444,7 @@ LEVEL_NOTE = ("Trusted: Lean kernel + propext/Classical.choice/Quot.sound; the h
               "(e.g. partition_point is linear here) are outside the property and not checked.")
 # members modelled and compared on every run but without a Lean theorem yet
 CORRESPONDENCE_ONLY = [
-    "min_element", "max_element", "minmax_element",
-    "is_permutation", "includes",
-    "merge_sort", "inplace_merge", "set_difference", "set_intersection", "set_symmetric_difference", "set_union"]
+    "merge_sort", "inplace_merge"]
 # algorithms whose model is proved equal to the spec for all inputs (TetlProofs/C06/Props.lean)
 WITH_THEOREM = [
     "find", "find_if", "find_if_not", "all_of", "any_of", "none_of", "count", "count_if", "for_each", "for_each_n",
@@ -460,5 +458,7 @@ WITH_THEOREM = [
     "adjacent_find", "is_sorted_until", "is_sorted", "partition", "transform (binary)", "binary_search", "partial_sum",
     "search", "find_end", "search_n",
     "sort", "gnome_sort (incl. termination)", "nth_element", "partial_sort", "bubble_sort", "exchange_sort",
-    "stable_sort", "insertion_sort (stability)"]
+    "stable_sort", "insertion_sort (stability)",
+    "min_element", "max_element", "minmax_element", "is_permutation (3/4 iterators)", "includes", "set_difference",
+    "set_intersection", "set_symmetric_difference", "set_union"]
 UNPROVED_OBSERVED = ["complexity requirements of the standard (not part of the property; partition_point is linear here)"]
